@@ -45,6 +45,25 @@ def awaited_result(body, fl, call_bb):
     return None
 
 
+def awaited_def(body, fl, call_bb):
+    """(block, local) of the statement that moves the output of awaiting the future created in call_bb out of Poll::Ready."""
+    fut = body.blocks[call_bb]["t"]["dest"]["l"]
+    derived, _ = fl.forward([fut], through_call=lambda t, ai: any(
+        n in ("core::future::into_future::IntoFuture::into_future", "core::pin::Pin::new_unchecked", "core::future::future::Future::poll",
+              "tracing::instrument::Instrument::instrument", "tracing::instrument::Instrument::in_current_span") for n in callee_names(t)))
+    for bb, i, s in body.stmts():
+        if s["k"] == "assign" and s["rv"]["k"] == "use" and not s["place"]["p"]:
+            p = op_place(s["rv"]["op"])
+            if p is not None and p["l"] in derived and any(isinstance(e, dict) and e.get("n") == "Ready" for e in p["p"]):
+                cur = s["place"]["l"]
+                for s2 in body.blocks[bb]["s"][i + 1:]:       # moved on within the same block
+                    if s2["k"] == "assign" and s2["rv"]["k"] == "use" and op_local(s2["rv"]["op"]) == cur and not s2["place"]["p"] \
+                            and not (op_place(s2["rv"]["op"]) or {}).get("p"):
+                        cur = s2["place"]["l"]
+                return bb, cur
+    return None
+
+
 def cmd_kind(body, fl, call_bb):
     """'embedded' / 'cover' for a Client::command call, by the constructor its command argument derives from."""
     t = body.blocks[call_bb]["t"]
@@ -158,6 +177,8 @@ def one(rep, prog, cfg):
                 if any(q[0] == "call" and len_of_out(q[1]) and q[1] in loop for q in lx) and \
                         not any(q[0] == "call" and len_of_out(q[1]) and q[1] not in loop for q in lx):
                     guard = (a, y)
+                    guard_len_side = "lhs" if x == ll else "rhs"
+                    guard_x = x
     size_ok = False
     if guard:
         a, sz = guard
@@ -182,6 +203,29 @@ def one(rep, prog, cfg):
     rep.check(guard is not None and size_ok, "C17.progress", cfg + "/guard len(out) < size of the first reply", b.loc(b.span),
               "the loop is not bounded by comparing the accumulated length with the size announced by the first reply")
 
+    # the guard is exactly `len(out) < size` (or `!=`): the loop goes on while bytes are outstanding and stops when none are — an
+    # adjusted bound (`len + 1 < size`, `<=`) returns a short picture or never ends
+    if guard is not None and size_ok:
+        from .. import terms
+        a, sz = guard
+        tx = terms.strip_views(terms.simplify(terms.term_of_local(b, guard_x, depth=10)))
+        ty = terms.simplify(terms.term_of_local(b, sz, depth=10))
+        plain = isinstance(tx, tuple) and tx[0] == "call" and tx[1] == "bytes::bytes_mut::BytesMut::len" and not terms.has_kind(ty, "binop") \
+            and not terms.has_kind(ty, "call")
+        op = a["op"]
+        if guard_len_side == "rhs":
+            op = {"Lt": "Gt", "Gt": "Lt", "Le": "Ge", "Ge": "Le"}.get(op, op)
+        # normalised: len OP size; which edge stays in the loop?
+        stays_true, stays_false = a["true"] in loop, a["false"] in loop
+        cont = None
+        if stays_true and not stays_false:
+            cont = op
+        elif stays_false and not stays_true:
+            cont = {"Lt": "Ge", "Ge": "Lt", "Gt": "Le", "Le": "Gt", "Ne": "Eq", "Eq": "Ne"}[op]
+        rep.check(plain and cont in ("Lt", "Ne"), "C17.progress", cfg + "/guard is exactly len(out) < size", b.loc(b.blocks[a["bb"]]["ts"]),
+                  "the chunk loop continues while `%s %s %s`; expected the accumulated length itself to be compared `<` with the announced size: the "
+                  "last byte(s) would never be requested, or the loop would not stop at the full size"
+                  % (terms.show(terms.canon(tx)), cont, terms.show(terms.canon(ty))))
     # ---- C17.fallback ----
     cmd_calls = [bb for bb, t in b.calls() if CMD in callee_names(t)]
     first = [bb for bb in cmd_calls if bb not in loop]
@@ -258,6 +302,27 @@ def one(rep, prog, cfg):
             st = fr.reach(e[1], init)
             rep.check(F in fr.blocks(st), "C17.fallback", cfg + "/%s reaches the fallback" % name, b.loc(b.blocks[F]["ts"]),
                       "the %s edge does not lead to the cover-file request" % name)
+    # "propagates any other server error": after an Err reply to the cover-file request or to any chunk request nothing more is
+    # requested or appended and no Ok(..) is returned (variant-sensitive reachability from the awaited result, A13)
+    from ..cfg import VariantReach
+    vr = VariantReach(b)
+    others = [bb for bb in cmd_calls if bb != E]
+    for bb in others:
+        kind = "+".join(sorted(cmd_kind(b, fl, bb))) or "?"
+        inst = "%s/error of the %s %s request is returned" % (cfg, kind, "chunk" if bb in loop else "first")
+        d = awaited_def(b, fl, bb)
+        if d is None:
+            rep.fail("C17.fallback", inst, b.loc(b.blocks[bb]["ts"]), "cannot find where the reply to this request is awaited (idiom unknown: failing closed)")
+            continue
+        after = vr.blocks_after_def(d[0], d[1], ("Err",))
+        more = sorted(x for x in after if x in cmd_calls or x == ebb)
+        oks = [(x, st) for x in sorted(after) for st in b.blocks[x]["s"] if st["k"] == "assign" and st["place"]["l"] == 0 and not st["place"]["p"]
+               and st["rv"]["k"] == "agg" and st["rv"].get("variant") == "Ok"]
+        rets = [x for x in after if b.blocks[x]["t"]["k"] == "return"]
+        rep.check(not more and not oks and rets, "C17.fallback", inst, b.loc(b.blocks[bb]["ts"]),
+                  "after an error reply to the %s request album_art %s: the server's error is swallowed instead of being returned" %
+                  (kind, "goes on to another request / append" if more else ("returns Ok(..)" if oks else "does not return")))
+    rep.floor("C17.fallback", cfg + "/requests whose error must propagate", len(others), 3)
     # ---- C17.source ----
     # the flag recording which command produced the first chunk: found by its role, not its name — a constant-only boolean
     # that is set to true somewhere after the embedded reply and (directly or as an argument copy) decides a branch in the loop
